@@ -1,1 +1,112 @@
-//! codecsim: see /verif/DESIGN.md
+//! codecsim — deterministic simulation of the *stream seam* of LDK's peer-message codecs (C13).
+//!
+//! Each peer message type of `lightning::ln::msgs` is one node. A run is a seeded sequence of
+//! `(message value, fault plan)` actions. The simulator owns the byte stream the real decoders read
+//! from: a `FaultyReader` (chunked delivery, EOF / io::Error at an offset, byte mutations, trailing
+//! bytes, rewritten length prefixes) wrapped in LDK's own `FixedLengthReader`, exactly how frames are
+//! decoded in `ln::wire::do_read` (`LengthReadable::read_from_fixed_length_buffer`). Oracles compare
+//! with a small structural model of the BOLT layouts (`msgs.rs`, `tlvmodel.rs`). See DESIGN.md §5 C13.
+
+pub mod allocguard;
+pub mod engine;
+pub mod gen;
+pub mod msgs;
+pub mod reader;
+pub mod sched;
+pub mod tlvmodel;
+
+use engine::{Action, Env};
+use serde_json::Value;
+use simcore::{Rng, RunOutcome, Sim, Tier};
+
+pub struct CodecSim;
+
+pub const PROFILES: &[&str] = &["stream", "ioskip"];
+
+impl Sim for CodecSim {
+	fn name(&self) -> &'static str {
+		"codecsim"
+	}
+
+	fn run(&self, profile: &str, seed: u64, tier: Tier) -> RunOutcome {
+		let mut rng = Rng::new(seed);
+		let cfg = sched::gen_config(profile, &mut rng, tier);
+		let mut env = Env::new(profile, seed);
+		let mut sch = rng.fork("schedule");
+		let mut attempts = 0u32;
+		while (env.trace.len() as u32) < cfg.cases && attempts < cfg.cases * 6 && env.out.violations.is_empty() {
+			attempts += 1;
+			let a = sched::next_action(&cfg, &mut sch);
+			env.apply(&a);
+		}
+		env.finish(serde_json::to_value(&cfg).unwrap(), profile)
+	}
+
+	fn replay(&self, replay: &Value) -> RunOutcome {
+		let profile = replay["profile"].as_str().unwrap_or("stream").to_string();
+		let trace: Vec<Action> = match serde_json::from_value(replay["trace"].clone()) {
+			Ok(t) => t,
+			Err(e) => {
+				let mut o = RunOutcome::default();
+				o.harness_errors.push(format!("bad replay trace: {}", e));
+				return o;
+			},
+		};
+		let mut env = Env::new(&profile, replay["seed"].as_u64().unwrap_or(0));
+		for a in trace.iter() {
+			env.apply(a);
+		}
+		env.finish(replay["config"].clone(), &profile)
+	}
+
+	fn components(&self) -> (Vec<String>, Vec<String>) {
+		(
+			vec![
+				"lightning::ln::msgs: Writeable + LengthReadable codecs of 50 peer message types (hand-written and impl_writeable_msg!)".into(),
+				"lightning::util::ser: FixedLengthReader, LengthLimitedRead, ReadTrackingReader, BigSize, CollectionLength, WithoutLength, Vec/Option/tuple/primitive codecs".into(),
+				"lightning::util::ser_macros: encode_tlv_stream! / _decode_tlv_stream_range! (TLV ordering, unknown odd/even rule, length checks)".into(),
+				"lightning-types features codecs; SocketAddress, Hostname, NodeId, OnionPacket, onion_message::packet::Packet, BlindedMessagePath, AttributionData codecs".into(),
+				"rust-bitcoin consensus codecs reached through TxAddInput / TxSignatures; libsecp256k1 key and signature parsing".into(),
+			],
+			vec![
+				"the byte stream under the decoder (FaultyReader: chunking, EOF, io::Error, mutation, extension; counts requested offsets)".into(),
+				"frame length declaration (the value handed to FixedLengthReader::new, normally taken from the transport header)".into(),
+				"message values (seeded generators through public struct fields; two types with pub(crate) fields are built from hand-laid-out bytes)".into(),
+				"type dispatch (wire::read is pub(crate); each type's own LengthReadable impl is called directly; dispatch is C13-7 in transportsim)".into(),
+			],
+		)
+	}
+}
+
+#[cfg(test)]
+mod tests {
+	use crate::engine::{Action, Env, Val};
+	use crate::reader::Chunking;
+	use crate::sched::{HAS_PREFIX, HAS_RANGE_BYTE};
+
+	/// Every type builds, encodes, matches its layout model and round-trips for a few seeds; the
+	/// scheduler's static hints agree with the models.
+	#[test]
+	fn all_types_clean() {
+		simcore::runner::install_panic_hook();
+		for ty in 0..crate::msgs::NUM_TYPES {
+			for s in 0..40u64 {
+				let mut env = Env::new("stream", 0);
+				let v = Val { ty, vseed: s * 7919 + ty as u64, big: s % 5 == 0 };
+				assert!(env.apply(&Action::Clean { v, chunk: Chunking::Random { seed: s, max: 7 }, slack: 9 }));
+				let (inf, bad) = (
+					env.apply(&Action::Inflate { v, which: 0, plus_one: false, chunk: Chunking::All }),
+					env.apply(&Action::BadByte { v, which: 0, chunk: Chunking::All }),
+				);
+				let o = env.finish(serde_json::Value::Null, "stream");
+				assert!(o.violations.is_empty() && o.harness_errors.is_empty(), "{:?} {:?}", o.violations, o.harness_errors);
+				if inf {
+					assert!(HAS_PREFIX.contains(&ty), "type {} has a prefix", ty);
+				}
+				if bad {
+					assert!(HAS_RANGE_BYTE.contains(&ty), "type {} has a range byte", ty);
+				}
+			}
+		}
+	}
+}
